@@ -220,6 +220,10 @@ func (g *G) intE0(s *sc, d int) *N {
 	}
 	switch g.r(top) {
 	case 0, 1, 2:
+		if g.r(12) == 0 { // integer power with small literal operands (negative exponents included)
+			base := []int64{-3, -2, -1, 1, 2, 3}[g.r(6)]
+			return &N{K: "call", S: "**", A: []*N{Int(base), Int(int64(g.r(9) - 3))}}
+		}
 		op := []string{"+", "-", "*"}[g.r(3)]
 		n := 2 + g.r(2)
 		a := []*N{}
@@ -775,7 +779,18 @@ func (g *G) stmt(s *sc, d int) *N {
 				case 1:
 					wrapped = &N{K: "newscope", A: []*N{bc}}
 				}
-				body = append(body, &N{K: "cond", A: []*N{g.boolE(ns, d-2), wrapped, {K: "nil"}}})
+				switch g.r(6) { // the form that carries the jump: cond arm, final / non-final and/or operand, cond predicate
+				case 0:
+					body = append(body, &N{K: "and", A: []*N{g.boolE(ns, d-2), wrapped}})
+				case 1:
+					body = append(body, &N{K: "and", A: []*N{g.boolE(ns, d-2), wrapped, Int(7)}})
+				case 2:
+					body = append(body, &N{K: "or", A: []*N{g.boolE(ns, d-2), wrapped, Int(7)}})
+				case 3:
+					body = append(body, &N{K: "cond", A: []*N{{K: "and", A: []*N{g.boolE(ns, d-2), wrapped}}, Int(1), Int(2)}})
+				default:
+					body = append(body, &N{K: "cond", A: []*N{g.boolE(ns, d-2), wrapped, {K: "nil"}}})
+				}
 			} else {
 				body = append(body, g.stmt(ns, d-1))
 			}
